@@ -73,7 +73,11 @@ struct ChannelSlot {
 
 impl ChannelSlot {
     fn new(mio_channel_bound: usize, channel_id: u16) -> (ChannelSlot, IoLoopHandle) {
-        let (mio_tx, mio_rx) = mio_sync_channel(mio_channel_bound);
+        // A bound of 0 would make this a rendezvous channel: a sender blocks until the I/O
+        // thread receives, but the I/O thread is only told to receive after the send has
+        // returned, so the first call on the channel would never complete. One slot is the
+        // smallest bound this notification scheme supports.
+        let (mio_tx, mio_rx) = mio_sync_channel(mio_channel_bound.max(1));
 
         // Bound of 2 is intentional here. The normal case for this channel is that it
         // will have at most 1 message in it (the response to a synchronous RPC call).
